@@ -89,6 +89,14 @@ type Exec struct {
 	clock     *Term
 	model       map[string]uint64 // satisfies the current pc when non-nil
 	codecLog    []codecEntry
+	fsTrace     []fsEvent
+	fsSeq       int
+	fsModelOn   bool
+	fsFaultBudget int
+	fsStatDirs  bool
+	fsFaultOps  map[string]bool
+	walkList    []walkEntry
+	zipList     []zipEntry
 	gzipLog     []gzipEntry
 	codecHits   int
 	havocSeq    int
